@@ -273,8 +273,10 @@ func (n *Node) serve(cn *conn) {
 			_ = m
 		case *wire.MsgVerAck:
 			n.log(rec)
+			n.mu.Lock()
 			cn.handshaken = true
 			cn.shakenAt = time.Now()
+			n.mu.Unlock()
 		case *wire.MsgPing:
 			n.log(rec)
 			if n.Spec.Pver > wire.BIP0031Version {
